@@ -120,6 +120,13 @@ def run_impl(case):
             a[i:j] = a
             got = [x.ticks for x in a]
             out = [x.ticks for x in xs] if got == [x.ticks for x in want] else got + [12345]
+        elif path == "ctor_oneshot":
+            # one-shot iterables: a generator into the constructor, an iterator into extend, a map into +=
+            a = A(x for x in xs)
+            b = A(); b.extend(iter(xs))
+            c3 = A(); c3 += map(lambda x: x, xs)
+            got = [[x.ticks for x in y] for y in (a, b, c3)]
+            out = got[0] if got[0] == got[1] == got[2] else got[0] + [12345]
         elif path == "slicefuzz":
             # slice assignments and deletions of every shape (reversed and empty ranges, negative and large steps, wrong
             # lengths) done to the array and to a plain list of the same values: same outcome, same records afterwards
@@ -299,7 +306,7 @@ def gen_cases(rng, tier):
         cases.append({"k": "from_tuple", "dt": False, "w": w, "f": 0, "ctor": True, "np": rng.choice([None, "w", "w", "w32"])})
     # arrays
     inr = battery(False)
-    paths = ["iter", "index", "negindex", "slice", "setitem", "setslice", "setslice_self", "setslice_self", "slicefuzz", "slicefuzz", "slicefuzz", "insert", "extend", "append", "pickle", "deepcopy", "pickle_write", "deepcopy_write", "copy_write",
+    paths = ["iter", "index", "negindex", "slice", "setitem", "setslice", "setslice_self", "setslice_self", "slicefuzz", "slicefuzz", "slicefuzz", "ctor_oneshot", "insert", "extend", "append", "pickle", "deepcopy", "pickle_write", "deepcopy_write", "copy_write",
              "ctor_from_array_write_copy", "ctor_from_array_write_orig", "ctor_from_iter_write"]
     for _ in range(250 if tier == "quick" else 6000):
         n = rng.choice([0, 1, 1, 2, 3, 5, 8])
